@@ -130,8 +130,15 @@ func (c *ChangesTable) open() (*ChangesCursor, error) {
 	ctx := c.module.sc.ctx
 	var from *s3db.KV
 	var err error
-	if c.fromVer == nil {
+	if c.fromVer == nil && c.table.Tree.Root.Size() > 0 {
 		from = c.table.Tree
+	} else if c.fromVer == nil {
+		// the table as this connection holds it has no entries (and, after a vacuum that
+		// emptied it, no root node that a diff could start from): that is the empty version
+		from, err = loadForDiffing(ctx, c.table.S3Options, []string{})
+		if err != nil {
+			return nil, fmt.Errorf("from: %w", err)
+		}
 	} else {
 		from, err = loadForDiffing(ctx, c.table.S3Options, c.fromVer)
 		if err != nil {
